@@ -42,6 +42,8 @@ structure Job where
   trigFail : List Nat := []
   /-- every `get_next` call with index ≥ this raises (a permanent failure such as a missing location) -/
   trigFailFrom : Nat := 1000000000
+  /-- `last_run`: the instant of the most recent execution -/
+  lastRun : Option Int := none
 deriving Repr, Inhabited
 
 inductive Ev
@@ -163,8 +165,9 @@ def updateNext (s : St) (j : Nat) : R :=
 /-- `JobBase.execute` inside the `try` of `run_jobs`, including the handling of a failed reschedule -/
 def execute (s : St) (j : Nat) (due : Int) : St :=
   let b := s.job j
-  let s := s.emit (.exec j s.now due)
-  let s := s.setJob j { b with execs := b.execs + 1 }
+  let t := s.now
+  let s := s.emit (.exec j t due)
+  let s := s.setJob j { b with execs := b.execs + 1, lastRun := some t }
   let s := if b.execFail.contains b.execs then s.emit (.exc "CallableError") else s
   match updateNext setT s j with
   | (s, none) => s
